@@ -649,6 +649,36 @@ func (g *apuGenSt) waveStopRetriggerCase(f, how, play int) {
 	g.p.c.class(fmt.Sprintf("wavestop/%03x/%d", f, how))
 }
 
+// channel 3 playing, re-triggered (or stopped and restarted), and wave RAM written / read straight after the trigger,
+// before the next sample fetch; then stopped and read back
+func (g *apuGenSt) waveAccessAfterTriggerCase(f, play int, restart bool) {
+	rng := g.p.c.rng
+	g.reset(0)
+	for i := 0; i < 16; i++ {
+		g.w(0xff30+i, (i*0x11+0x10)&0xff)
+	}
+	g.w(0xff1a, 0x80)
+	g.w(0xff1c, 0x20)
+	g.w(0xff1d, f&0xff)
+	g.w(0xff1e, 0x80|f>>8)
+	g.c(play)
+	if restart {
+		g.w(0xff1a, 0x00)
+		g.w(0xff1a, 0x80)
+	}
+	g.w(0xff1e, 0x80|f>>8)
+	g.w(0xff30+rng.intn(16), 0xee)
+	g.r(0xff30 + rng.intn(16))
+	g.c(rng.intn(3))
+	g.w(0xff30+rng.intn(16), 0xdd)
+	g.c(1 + rng.intn(700))
+	g.w(0xff1a, 0x00)
+	for i := 0; i < 16; i++ {
+		g.r(0xff30 + i)
+	}
+	g.p.c.class(fmt.Sprintf("waveaccess/%03x/%v", f, restart))
+}
+
 // random sequences of NRx4 writes (length enable and trigger in every combination) at random phases with the counter
 // near its end values, then NR52 observed once per length clock until well past any possible expiry
 func (g *apuGenSt) nrx4SequenceCase(ch int) {
@@ -1010,6 +1040,11 @@ func apuGen(c *ctx) {
 				}
 			}
 			c.class(fmt.Sprintf("live-readback/%d", k))
+		}
+		for _, f := range []int{0x400, 0x600, 0x700, 0x7c0, 0x7f0, 0x7ff} {
+			for k := 0; k < 4; k++ {
+				g.waveAccessAfterTriggerCase(f, 300+c.rng.intn(6000), k%2 == 1)
+			}
 		}
 		for _, f := range []int{0x7ff, 0x7fe, 0x7fd, 0x6d6, 0x700} {
 			for how := 0; how < 3; how++ {
